@@ -173,6 +173,67 @@ func runC08(w *World, r *Report) {
 		}
 	}
 
+	// ------------------------------------------------------------ R-C08-5
+	// Package-level maps of the interpreter that are written after start-up.  The table was
+	// discovered by listing every package-level map written outside init() in the interpreter
+	// packages together with the locks held at each access, and confirmed by reading.
+	r.Rule("R-C08-5", "package-level maps of package data written after start-up (BuiltinsDictionary, implements, packageTypes) are read and written only with their mutex held", 10)
+
+	guardedMaps := map[string]string{"BuiltinsDictionary": "data.dictionaryMutex", "implements": "data.validationLock", "packageTypes": "data.packageTypesLock"}
+	dataFns := w.srcFuncs(dp)
+	dataEntry := entryLocksets(dataFns, nil)
+	seenMap := map[string]bool{}
+
+	for _, fn := range dataFns {
+		if fn.Name() == "init" && fn.Parent() == nil {
+			continue
+		}
+
+		ls := computeLocksets(fn, dataEntry[fn], nil)
+		count := map[string]int{}
+
+		allInstrs(fn, func(in ssa.Instruction) {
+			var g *ssa.Global
+
+			switch x := in.(type) {
+			case *ssa.UnOp:
+				g, _ = x.X.(*ssa.Global)
+			case *ssa.Store:
+				g, _ = x.Addr.(*ssa.Global)
+			}
+
+			if g == nil || g.Pkg == nil || g.Pkg.Pkg != dp.Types {
+				return
+			}
+
+			lock, ok := guardedMaps[g.Name()]
+			if !ok {
+				return
+			}
+
+			seenMap[g.Name()] = true
+
+			key := fnKey(fn) + "|" + g.Name() + " access"
+			count[key]++
+
+			if n := count[key]; n > 1 {
+				key += "#" + sprintInt(n)
+			}
+
+			if ls.heldAt(in)[lock] != 0 {
+				r.Discharge("R-C08-5", key, w.pos(in.Pos()), lock+" held")
+			} else {
+				r.Violate("R-C08-5", key, w.pos(in.Pos()), "data."+g.Name()+" is touched without "+lock+": a goroutine that imports a package (or defines a type) while another reaches this line hits a concurrent map read and map write, which is fatal")
+			}
+		})
+	}
+
+	for name := range guardedMaps {
+		if !seenMap[name] {
+			r.Anchor("R-C08-5", "data."+name)
+		}
+	}
+
 	// ------------------------------------------------------------ R-C08-4
 	// The interpreter shadows the state of every program mutex (to refuse an Unlock of an
 	// unlocked mutex instead of dying in the Go runtime).  The shadow is consistent only if it
